@@ -103,3 +103,66 @@ def assigned_names(target):
         if isinstance(n, ast.Name):
             out.append(n.id)
     return out
+
+
+TERMINATORS = (ast.Return, ast.Raise, ast.Continue, ast.Break)
+
+
+def _terminates(block):
+    return bool(block) and isinstance(block[-1], TERMINATORS)
+
+
+def guards(node, stop=None):
+    """Path condition of `node` inside its function: [(test, polarity)] from the outermost to the innermost, where
+    polarity True means the test held.  Counts enclosing `if`s (body / orelse), enclosing conditional expressions,
+    operands of and/or to the left of the node, and earlier sibling `if`s of every enclosing block whose body ends in
+    return/raise/continue/break (their test was false for control to get here).  Loops and try blocks add nothing."""
+    out = []
+    child = node
+    for p in parents(node):
+        if p is stop:
+            break
+        if isinstance(p, ast.If):
+            if any(child is x for x in p.body):
+                out.append((p.test, True))
+            elif any(child is x for x in p.orelse):
+                out.append((p.test, False))
+        elif isinstance(p, ast.IfExp):
+            if child is p.body:
+                out.append((p.test, True))
+            elif child is p.orelse:
+                out.append((p.test, False))
+        elif isinstance(p, ast.BoolOp):
+            i = next((k for k, v in enumerate(p.values) if v is child), None)
+            if i:
+                for v in reversed(p.values[:i]):
+                    out.append((v, isinstance(p.op, ast.And)))
+        for fld in ("body", "orelse", "finalbody"):
+            blk = getattr(p, fld, None)
+            if isinstance(blk, list) and any(child is x for x in blk):
+                i = next(k for k, x in enumerate(blk) if x is child)
+                for prev in reversed(blk[:i]):
+                    if isinstance(prev, ast.If) and _terminates(prev.body) and not prev.orelse:
+                        out.append((prev.test, False))
+        if isinstance(p, FUNC):
+            break
+        child = p
+    out.reverse()
+    return out
+
+
+def guard_texts(node, stop=None):
+    """guards() rendered as canonical text; a false test is rendered through canon.neg."""
+    from . import canon
+    from .pysrc import norm
+
+    res = []
+    for t, pol in guards(node, stop):
+        if not pol:
+            n = canon.neg(t)
+            if n is not t:
+                n._canon = getattr(t, "_canon", False)
+                n._parent = getattr(t, "_parent", None)
+            t = n
+        res.append(norm(t))
+    return res
